@@ -264,7 +264,7 @@ func (ck *Check) discharge(jobs []job) {
 	work := filepath.Join(ck.Verif, ".work", fmt.Sprint(os.Getpid()))
 	os.MkdirAll(work, 0o755)
 	defer os.RemoveAll(work)
-	r := &Runner{Dir: work, TimeoutS: ck.timeout(), Thorough: ck.Tier == "thorough", CrossLight: ck.crossLight}
+	r := &Runner{Dir: work, TimeoutS: ck.timeout(), Thorough: ck.Tier == "thorough", CrossLight: ck.crossLight || len(jobs) > 1500}
 	res := make([]*Result, len(jobs))
 	var wg sync.WaitGroup
 	sem := make(chan struct{}, runtime.NumCPU())
